@@ -20,6 +20,7 @@ import (
 
 	"github.com/alpacahq/marketstore/v4/catalog"
 	"github.com/alpacahq/marketstore/v4/executor"
+	"github.com/alpacahq/marketstore/v4/executor/wal"
 	"github.com/alpacahq/marketstore/v4/frontend"
 	"github.com/alpacahq/marketstore/v4/utils"
 	"github.com/alpacahq/marketstore/v4/utils/io"
@@ -53,6 +54,8 @@ type Sender struct {
 	Seq     *int64
 	// OnSend, if set, is called with the parsed batch (after recording, before gating).
 	OnSend func(b []Cmd)
+	// OnSendRaw, if set, is called with the write sets of the TG exactly as the flusher will apply them.
+	OnSendRaw func(wts []wal.WTSet)
 }
 
 func (s *Sender) Run(_ context.Context) {}
@@ -70,6 +73,9 @@ func (s *Sender) Send(tg []byte) {
 	s.mu.Unlock()
 	if s.OnSend != nil {
 		s.OnSend(b)
+	}
+	if s.OnSendRaw != nil {
+		s.OnSendRaw(wts)
 	}
 	if s.Gated {
 		atomic.StoreInt32(&s.Parked, 1)
@@ -141,6 +147,16 @@ func tmpBase() string {
 // New creates an empty instance; buckets W0..W(n-1) (1Min, Epoch+Open float32, fixed) are created so
 // that a query for a missing row is an empty result rather than an unknown bucket.
 func New(nWriters int, gated bool, variable bool) (*Inst, error) {
+	types := make([]bool, nWriters)
+	for i := range types {
+		types[i] = variable
+	}
+	return NewTypes(types, gated)
+}
+
+// NewTypes: bucket Ww is variable-length iff variable[w].
+func NewTypes(variable []bool, gated bool) (*Inst, error) {
+	nWriters := len(variable)
 	root, err := os.MkdirTemp(tmpBase(), "vsx")
 	if err != nil {
 		return nil, err
@@ -176,11 +192,11 @@ func New(nWriters int, gated bool, variable bool) (*Inst, error) {
 		return nil, err
 	}
 	in.Q = frontend.NewQueryService(in.Cat)
-	rt := io.FIXED
-	if variable {
-		rt = io.VARIABLE
-	}
 	for w := 0; w < nWriters; w++ {
+		rt := io.FIXED
+		if variable[w] {
+			rt = io.VARIABLE
+		}
 		tbk := io.NewTimeBucketKey(Key(w))
 		tf, err := tbk.GetTimeFrame()
 		if err != nil {
@@ -334,4 +350,85 @@ func takeOrPut(wf *executor.WALFileType) (chan struct{}, bool) {
 		return nil, false
 	}
 	return executor.VerifHPutToken(wf), true
+}
+
+// CSMVar builds a variable-length request for bucket w: one record per id at minute `slot`, second = id
+// (so the on-disk sort order by interval ticks is the order of the ids), Open = id.
+func CSMVar(w, slot int, ids []int) io.ColumnSeriesMap {
+	ep := make([]int64, len(ids))
+	op := make([]float32, len(ids))
+	for i, id := range ids {
+		ep[i] = BaseEpoch + int64(60*slot) + int64(id%60)
+		op[i] = float32(id)
+	}
+	cs := io.NewColumnSeries()
+	cs.AddColumn("Epoch", ep)
+	cs.AddColumn("Open", op)
+	csm := io.NewColumnSeriesMap()
+	csm.AddColumnSeries(*io.NewTimeBucketKey(Key(w)), cs)
+	return csm
+}
+
+// QuerySlot runs a real query over minute `slot` of bucket w and returns the Open values in result order.
+func (in *Inst) QuerySlot(w, slot int) ([]int, error) {
+	tbk := io.NewTimeBucketKey(Key(w))
+	st := BaseEpoch + int64(60*slot)
+	csm, err := in.Q.ExecuteQuery(tbk, time.Unix(st, 0).UTC(), time.Unix(st+59, 0).UTC(), 0, false, nil)
+	if err != nil {
+		if strings.Contains(err.Error(), "no files returned") {
+			return nil, nil
+		}
+		return nil, err
+	}
+	var out []int
+	for _, cs := range csm {
+		if col, ok := cs.GetColumn("Open").([]float32); ok {
+			for _, v := range col {
+				out = append(out, int(v))
+			}
+		}
+	}
+	return out, nil
+}
+
+// BucketFile is the path of bucket w's 2020 year file.
+func (in *Inst) BucketFile(w int) string {
+	return filepath.Join(in.Root, fmt.Sprintf("W%d", w), "1Min", "OHLCV", "2020.bin")
+}
+
+// CSMAt builds a one-row request for the fixed bucket w: minute `slot`, Open = v.
+func CSMAt(w, slot, v int) io.ColumnSeriesMap {
+	cs := io.NewColumnSeries()
+	cs.AddColumn("Epoch", []int64{BaseEpoch + int64(60*slot)})
+	cs.AddColumn("Open", []float32{float32(v)})
+	csm := io.NewColumnSeriesMap()
+	csm.AddColumnSeries(*io.NewTimeBucketKey(Key(w)), cs)
+	return csm
+}
+
+// QueryAll queries minutes 0..n-1 of bucket w in one request and returns Open per minute (-1: no row).
+func (in *Inst) QueryAll(w, n int) ([]int, error) {
+	out := make([]int, n)
+	for i := range out {
+		out[i] = -1
+	}
+	tbk := io.NewTimeBucketKey(Key(w))
+	csm, err := in.Q.ExecuteQuery(tbk, time.Unix(BaseEpoch, 0).UTC(), time.Unix(BaseEpoch+int64(60*n)-1, 0).UTC(), 0, false, nil)
+	if err != nil {
+		if strings.Contains(err.Error(), "no files returned") {
+			return out, nil
+		}
+		return out, err
+	}
+	for _, cs := range csm {
+		ep := cs.GetEpoch()
+		col, _ := cs.GetColumn("Open").([]float32)
+		for i, e := range ep {
+			s := int((e - BaseEpoch) / 60)
+			if s >= 0 && s < n && i < len(col) {
+				out[s] = int(col[i])
+			}
+		}
+	}
+	return out, nil
 }
